@@ -226,6 +226,9 @@ def boundary(fields):
     rmin, rmax, cmin, cmax = sys.maxsize, -sys.maxsize, sys.maxsize, -sys.maxsize
 
     for field in fields:
+        if field.data.size == 0:
+            # an empty Field occupies no pixel
+            continue
         frmin, frmax, fcmin, fcmax = field.extent
         rmin = frmin if frmin < rmin else rmin
         rmax = frmax if frmax > rmax else rmax
@@ -424,6 +427,10 @@ def overlap(fields):
     overlap : bool
     
     """
+    # an empty Field occupies no pixel and overlaps nothing
+    if any(f.data.size == 0 for f in fields):
+        return False
+
     if len(fields) == 2:
         return lentil.extent.intersect(fields[0].extent, fields[1].extent)
     else:
